@@ -167,9 +167,10 @@ def fromJsonText (t : PType) (j : JV) : Except CErr PVal :=
     | some v => fromJsonVal t v
   | _ => .error typeError
 
-/-- `float(x)` on a number literal, as literal text again (integers get `.0`) -/
+/-- `float(x)` on a number literal, as literal text again (integers get `.0`; the JSON tokens of the
+    non-finite floats `Infinity`, `-Infinity`, `NaN` — and `repr`'s `inf`, `nan` — are floats already) -/
 def floatLit (l : Str) : Str :=
-  if l.any fun c => c == '.' || c == 'e' || c == 'E' || c == 'n' then l else l ++ ['.', '0']
+  if l.any fun c => c == '.' || c == 'e' || c == 'E' || c == 'n' || c == 'N' then l else l ++ ['.', '0']
 
 /-- `_transform_data` of one value when a pattern structure is constructed -/
 def transformVal (t : PType) (v : PVal) : Except CErr PVal :=
